@@ -352,6 +352,10 @@ class LocalStorageBackend(StorageBackend):
             st = os.stat(full_path)
         except (FileNotFoundError, NotADirectoryError):
             return False
+        except OSError as e:
+            if e.errno == errno.ENAMETOOLONG:
+                return False  # no file can have this name: "not there", not a storage failure
+            raise
         if stat.S_ISDIR(st.st_mode):
             return path.endswith("/") or path.endswith(os.sep)
         return True
